@@ -15,7 +15,8 @@ from ..world import World, inventory, contents_of, inv_brief
 ID = "C04"
 LEVEL = "exploration"
 BUDGET = {"quick": {"n": 480, "wall_s": 400}, "thorough": {"n": 20000, "wall_s": 3300}}
-RULE = ("per history: world of 1..4 duplicate groups; 1..2 edits drawn from {rewrite same/other length, append, "
+RULE = ("per history: world of 1..4 duplicate groups over 1..2 roots (--isolate in 30%, hard links / -H in 25%, "
+        "--priority or -n 2 on the dedupe side in 30%); 1..2 edits drawn from {rewrite same/other length, append, "
         "truncate, delete, delete+recreate, replace by directory, by symlink to a member / to an outside file, touch}, "
         "each stamped with the simulated now; edit position drawn from {rendezvous before the n-th open/read/stat of "
         "the edited or another file during group, before the report is written, between the runs after 100us/1ms/1s/"
@@ -60,11 +61,29 @@ def gen_case(seed, i):
     cfg = {"kind": rng.choice(["ssd", "ssd", "hdd"])}
     w = World()
     ngroups = rng.randint(1, 4)
+    # group / dedupe options that change which members form one replica and which one is retained
+    roots, gflags, dargs = ["r"], [], []
+    dirs = ["r", "r", "r/d", "r/e/f"]
+    r_ = rng.random()
+    if r_ < 0.3:
+        roots, gflags, dirs = ["r", "s"], ["--isolate"], ["r", "r/d", "r/e/f", "s", "s", "s/q"]
+    elif r_ < 0.4:
+        roots, dirs = ["r", "s"], ["r", "r/d", "s", "s/q"]
+    hardlinks = rng.random() < 0.25
+    if hardlinks and rng.random() < 0.5 and not gflags:
+        gflags = ["-H"]
+    r_ = rng.random()
+    if r_ < 0.2:
+        dargs = ["--priority", rng.choice(["newest", "oldest", "most-nested", "bottom", "most-recently-modified"])]
+    elif r_ < 0.3:
+        dargs = ["-n", "2"]
     for g in range(ngroups):
         n = rng.choice([1, 40, 300, 5000, 70000])
         for k in range(rng.randint(2, 4)):
-            d = rng.choice(["r", "r", "r/d", "r/e/f"])
+            d = rng.choice(dirs)
             w.add_file("%s/g%dk%d" % (d, g, k), _c(g + 1, n))
+            if hardlinks and rng.random() < 0.3:
+                w.add_hardlink("%s/g%dk%dh" % (rng.choice(dirs), g, k), "%s/g%dk%d" % (d, g, k))
     if rng.random() < 0.5:
         w.add_file("r/uniq", _c(99, 300))
     groups = members(w)
@@ -92,6 +111,7 @@ def gen_case(seed, i):
         ed["step"] = rng.choice(STEPS)
         edits.append(ed)
     return {"i": i, "world": w.to_json(), "cfg": cfg, "edits": edits, "op": rng.choice(ops.OPS),
+            "roots": roots, "gflags": gflags, "dargs": dargs,
             "fmt": rng.choice(["default", "json"]), "gap": rng.choice(STEPS),
             # the two processes may live in any time zone (POSIX TZ strings need no tz database)
             "tz": rng.choice(["UTC0", "UTC0", "CET-2", "EST5", "IST-5:30", "LINT-14", "HST10"]),
@@ -161,6 +181,8 @@ def shrink(case):
         c = dict(case); c["fmt"] = "default"; yield c
     if case.get("tz2"):
         c = dict(case); c["tz2"] = None; yield c
+    if case.get("dargs"):
+        c = dict(case); c["dargs"] = []; yield c
 
 
 def run_case(case):
@@ -193,8 +215,8 @@ def run_case(case):
             do_edit(g_edits[hid])
             return clock[0]
 
-        gargs = ["--threads", "1"] + (["-f", "json"] if case["fmt"] == "json" else [])
-        g = ops.group(rd, [os.path.join(rd.world, "r")], gargs, plan=plan, env=_env(case), now_ns=clock[0],
+        gargs = ["--threads", "1"] + case.get("gflags", []) + (["-f", "json"] if case["fmt"] == "json" else [])
+        g = ops.group(rd, [os.path.join(rd.world, r) for r in case.get("roots", ["r"])], gargs, plan=plan, env=_env(case), now_ns=clock[0],
                       on_hit=on_hit_group if g_edits else None, seed=3)
         traces = [g.trace]
         if g.rc != 0 or g.timed_out:
@@ -209,16 +231,28 @@ def run_case(case):
         clock[0] += 10**9
         baseline[0] = inventory(rd.world)
         # (iii) during dedupe, right before its first stat of the edited file
+        # "before dedupe inspects the file": the file is the inode - pause before the first stat of ANY of
+        # its paths (hard links), whichever the command looks at first
         dplan = []
+        rule_edit = {}
         for n, ed in enumerate(d_edits):
-            dplan.append(rule(kind="stat", path=b2s(ops.absw(rd, ed["p"])), ord=0, act="pause:%d" % n, id=n))
+            ident = baseline[0].get(s2b(ed["p"]))
+            same = [p for p, e in baseline[0].items() if ident is not None and e.type == "f" and ident.type == "f" and e.ident == ident.ident] or [s2b(ed["p"])]
+            for p in sorted(same):
+                rid = len(rule_edit)
+                rule_edit[rid] = n
+                dplan.append(rule(kind="stat", path=b2s(ops.absw(rd, p)), ord=0, act="pause:%d" % rid, id=rid))
+        edits_done = set()
 
         def on_hit_dedupe(hid):
-            do_edit(d_edits[hid])
-            baseline[0] = inventory(rd.world)   # conservation counts from the state after the last edit
+            n = rule_edit[hid]
+            if n not in edits_done:
+                edits_done.add(n)
+                do_edit(d_edits[n])
+                baseline[0] = inventory(rd.world)   # conservation counts from the state after the last edit
             return clock[0]
 
-        res = ops.dedupe(rd, case["op"], rep_bytes, target=os.path.join(rd.world, "T"), plan=dplan, env=_env(case, True),
+        res = ops.dedupe(rd, case["op"], rep_bytes, extra=case.get("dargs", []), target=os.path.join(rd.world, "T"), plan=dplan, env=_env(case, True),
                          now_ns=clock[0], on_hit=on_hit_dedupe if d_edits else None, seed=5, threads_env=1)
         traces.append(res.trace)
         after = inventory(rd.world)
@@ -267,4 +301,5 @@ def _symlink_then_target_changed(case, violation):
     return False
 
 
-KNOWN_PREDICATES = {"c04-symlink-member-then-target-changed": _symlink_then_target_changed}
+# c04-symlink-member-then-target-changed was repaired in /repo: its witness is a regression case now
+KNOWN_PREDICATES = {}
